@@ -154,7 +154,7 @@ def run(ck):
     sl = prog.fn("winter_air::proof::Proof::security_level")
     ck.saw(sl)
     try:
-        ps = paths(sl)
+        ps = paths(sl, skip_loops=True)
     except TooComplex as e:
         raise AnchorError(f"security_level: {e}")
     want = {True: "winter_air::proof::get_conjectured_security", False: "winter_air::proof::get_proven_security"}
@@ -174,6 +174,11 @@ def run(ck):
     for flagv, callee in want.items():
         res = seen.get(flagv)
         ok = res is not None and res[1] == callee
+        if flagv and res is None:
+            # the conjectured estimate is computed in security_level itself (no separate function): its value, including the inputs
+            # it is computed from, is decided by rule FORM on the inlined view
+            ck.note("security_level(conjectured=true) computes the estimate in place; dispatch and inputs are covered by FORM")
+            continue
         ck.ob("LVL", f"dispatch:conjectured={flagv}", ok,
               f"security_level(conjectured={flagv}) returns {callee.split('::')[-1]}(..)", loc=sl.loc())
         if ok:
@@ -219,12 +224,49 @@ def expected_conjectured():
     return {lo, hi}
 
 
+LEAVES = (("winter_air::proof::context::Context::options", ("p", 1)),
+          ("winter_air::proof::context::Context::num_modulus_bits", ("p", 2)),
+          ("winter_air::air::trace_info::TraceInfo::length", ("p", 3)))
+
+
+def _abstract_leaves(e):
+    """replace the four inputs of the estimate, as Proof::security_level obtains them, by the placeholders of the documented formula"""
+    if not isinstance(e, tuple):
+        return e
+    if e[0] == "call":
+        for nm, ph in LEAVES:
+            if e[1] == nm:
+                return ph
+        return ("call", e[1], tuple(_abstract_leaves(a) for a in e[2]))
+    if e[0] == "k" and isinstance(e[1], str) and e[1].endswith("COLLISION_RESISTANCE"):
+        return ("p", 4)
+    if e[0] == "op":
+        return ("op", e[1], tuple(_abstract_leaves(a) for a in e[2]))
+    if e[0] in ("un", "cast"):
+        return (e[0], e[1], _abstract_leaves(e[2]))
+    if e[0] == "field":
+        return ("field", e[1], e[2], _abstract_leaves(e[3]))
+    return e
+
+
 def extract_conjectured(prog):
-    f = prog.fn("winter_air::proof::get_conjectured_security")
+    """the value Proof::security_level(.., conjectured = true) returns, as path conditions and a symbolic result — read from the view
+    of security_level with its private helpers inlined, so that it does not matter whether the estimate is a function of its own"""
+    sl = prog.fn("winter_air::proof::Proof::security_level")
+    f = prog.inl(sl)
     got = set()
-    for conds, res in paths(f):
-        got.add((frozenset(canon_cond(c, v) for c, v in conds), res))
+    for conds, res in paths(f, max_paths=256, skip_loops=True):
+        flag = [v for c, v in conds if norm(c) == ("p", 2)]
+        if not flag or flag[0] == "0":
+            continue   # the proven-security branch
+        rest = [(c, v) for c, v in conds if norm(c) != ("p", 2)]
+        got.add((frozenset(canon_cond_abs(c, v) for c, v in rest), norm(_abstract_leaves(res))))
     return f, got
+
+
+def canon_cond_abs(c, v):
+    x = canon_cond(_abstract_leaves(norm(c)), v)
+    return x
 
 
 def formula(ck, prog):
@@ -234,7 +276,7 @@ def formula(ck, prog):
         ck.note(f"conjectured estimate is no longer loop-free ({e}); formula conformance not decided")
         ck.ob("FORM", "conjectured:extractable", False,
               "get_conjectured_security is a loop-free integer function whose value can be extracted symbolically",
-              loc=prog.fn("winter_air::proof::get_conjectured_security").loc())
+              loc=prog.fn("winter_air::proof::Proof::security_level").loc())
         return
     ck.saw(f)
     exp = expected_conjectured()
